@@ -268,6 +268,12 @@ func (d *c20Dump) load(stats *Stats, files []c20File, archive []byte, identity h
 	cls := c20ErrClass(err)
 	stats.Inc("branch.load." + res)
 	stats.Inc("errclass." + cls)
+	if archive != nil && err != nil {
+		// the archive's ciphertext is freshly randomised by HPKE on every run: which check trips first at a
+		// given offset (base64, KEM, header JSON, frame) may differ between runs, the verdict does not;
+		// the fine class goes to the statistics only so that the answer stream is a function of the seed
+		cls = "archive"
+	}
 	return fmt.Sprintf("%s log=%d schema=%d equal=%s cls=%s", res, len(db.mutations), len(db.schemaLog), equal, cls)
 }
 
@@ -337,6 +343,8 @@ func c20EditManifest(raw []byte, path string, valueToken string) ([]byte, bool) 
 
 // ---------------------------------------------------------------- runner
 
+var c20DumpCache = map[string]*c20Dump{}
+
 type c20Runner struct {
 	stats *Stats
 	dump  *c20Dump
@@ -351,9 +359,19 @@ func (r *c20Runner) fileIndex(tok string) (int, bool) {
 
 func (r *c20Runner) Step(t []string, raw string) string {
 	if t[0] == "dump" {
-		d, err := c20BuildDump(c20KV(t[1:]))
-		if err != nil {
-			return "bad-dump " + strings.ReplaceAll(err.Error(), "\n", " ")
+		// the pristine dump of a dump line is immutable (every mutation works on a clone), so cases that
+		// share a dump line share the dump: one tar op per case stays cheap and a known finding in one op
+		// cannot mask a new violation in another (the flow reports the first rejection of a case)
+		d, cached := c20DumpCache[raw]
+		if !cached {
+			var err error
+			if d, err = c20BuildDump(c20KV(t[1:])); err != nil {
+				return "bad-dump " + strings.ReplaceAll(err.Error(), "\n", " ")
+			}
+			if len(c20DumpCache) > 64 {
+				c20DumpCache = map[string]*c20Dump{}
+			}
+			c20DumpCache[raw] = d
 		}
 		r.dump = d
 		sizes := []string{}
@@ -363,7 +381,7 @@ func (r *c20Runner) Step(t []string, raw string) string {
 		r.stats.Inc("dumps")
 		return fmt.Sprintf("ok files=%d sizes=%s arc=%d", len(d.files), strings.Join(sizes, ","), len(d.archive))
 	}
-	if t[0] == "path" || t[0] == "frames" {
+	if t[0] == "path" || t[0] == "frames" || t[0] == "clean" || t[0] == "join" {
 		// corpus files of the sibling suites c20path* / c20frames* also match the corpus glob "c20*.ops" of this suite
 		return "foreign-op"
 	}
